@@ -245,6 +245,9 @@ class ExecMixin:
             print("  " * len(self.stack), f"    {name} := {short(v)}")
         if state.pc and isinstance(v, (Num, Bool, Str)):
             v = replace(v, prov=v.prov | state.pc)
+        if isinstance(v, Num) and v.sym is None and v.const is None and self.number_locals:
+            # value numbering of sym-less locals: "the value of this variable in the current iteration of the active loops"
+            v = replace(v, sym=("opq", fr.label, name, tuple(l.token for l in self.loops)))
         if name in (getattr(fr, "globals_", None) or ()):
             self.event("global-write", None, name=name, module=fr.module.name)
             state.effects = state.effects | {("global", f"{fr.module.name}.{name}")}
@@ -534,6 +537,7 @@ class ExecMixin:
         # the flags only exclude sequences whose positions are not modelled at all
         covering = not (seq.flags & {"unmodelled", "building", "weak-append"})
         lc = LoopCtx(lid, f"t{lid}", seq.length, covering)
+        lc.seq = seq
         self.token_loop[lc.token] = lc.loopid
         elem_t = subst_val(seq.elem, {seq.kvar: ivar(lc.token)})
         lo, hi = seq.length.lo, seq.length.hi
